@@ -312,8 +312,8 @@ func (h *harness) tieIntro(bt *built, s *schema.Schema, F []string, got *IntroD)
 			return f
 		}
 		h.count("model:accepted")
-		if rep.String() != "(accepted true true true true true)" {
-			return corr("model-accepted", "the acceptance predicate the theorems assume (wf closed implsExact kindsOk featuresOk) is false of a schema schema.New accepted: "+rep.String())
+		if rep.String() != "(accepted true true true true true true)" {
+			return corr("model-accepted", "the acceptance predicate the theorems assume (wf closed implsExact kindsOk featuresOk namesOk) is false of a schema schema.New accepted: "+rep.String())
 		}
 	}
 	rep, f := h.ask(hx.N("introspect", x, reg, impls, featuresSexp(F)).String())
@@ -436,6 +436,44 @@ func (h *harness) tieRebuild(bt *built, s *schema.Schema, data []byte) *failure 
 	a, b := canonIDs(rep, 1<<40, true).String(), canonIDs(eraseIDs(x2), 1<<40, true).String()
 	if a != b {
 		return corr("model-rebuild", "rebuilt definitions differ: model vs implementation "+firstDiff(a, b))
+	}
+	return nil
+}
+
+// tieRoundTrip ties the literal specification of the theorems (Literal.lean: parseLit, coerceLit)
+// to reality on a printed default: for a value of the classes default_roundtrip covers, the
+// specification parser must read the implementation's text as the literal denoting the configured
+// value, and that literal must coerce back to it.
+func (h *harness) tieRoundTrip(bt *built, cd confDefault, path, text string) *failure {
+	if bt.defSexp == nil {
+		x, err := extract(bt.def, newIDAlloc(1))
+		if err != nil {
+			return nil
+		}
+		bt.defSexp = &x
+	}
+	e := &extractor{ids: newIDAlloc(1), types: map[string]schema.NamedType{}}
+	ts := e.typ(cd.Typ)
+	vs := e.valOf(cd.Conf)
+	if e.err != nil {
+		return nil
+	}
+	rep, f := h.ask(hx.N("roundtrip", *bt.defSexp, ts, vs, hx.A(canonLiteral(text))).String())
+	if f != nil {
+		return f
+	}
+	h.count("model:roundtrip")
+	if !rep.IsList || len(rep.List) != 5 || rep.List[0].Atom != "rt" {
+		return corr("model-roundtrip", "unexpected reply "+rep.String())
+	}
+	covered, nf, parses, coerces := rep.List[1].Atom == "true", rep.List[2].Atom == "true", rep.List[3].Atom == "true", rep.List[4].Atom == "true"
+	if !covered || !nf {
+		h.count("model:roundtrip:outside-covered-classes")
+		return nil
+	}
+	h.count("model:roundtrip:covered")
+	if !parses || !coerces {
+		return corr("model-roundtrip", fmt.Sprintf("%s: the literal specification does not reproduce the round trip on the implementation's text %q (parses=%v coerces=%v)", path, text, parses, coerces))
 	}
 	return nil
 }
